@@ -327,7 +327,7 @@ func runProtocol(kc *kernelCtx, blocks []*Block, only string, want map[string]bo
 		if on("C12") || on("C16") || on("C11") || on("C14") || on("C20") || onPlug {
 			pc.p3Frame(s)
 		}
-		if on("C03") || on("C14") || onPlug {
+		if on("C03") || on("C14") || on("C05") || on("C16") || onPlug {
 			pc.p2Release(s)
 			pc.p2cUnconditionalRelease(s)
 		}
